@@ -738,6 +738,29 @@ def r_find(ck: Checker) -> None:
     (ck.holds if ok else ck.violation)("R-XP-FIND", c, c.node, what, **({} if ok else {"construct": "ASTXpath.__init__: relative path normalisation not recognised"}))
 
 
+def r_empty_step(ck: Checker, modname: str = XP) -> None:
+    """The transformer marks the empty step between two slashes (`//`) by (None, None, None).  That marker stands for "the element rule
+    had no children"; an element that has children which constrain nothing (`[]`) is still a step of exactly one level."""
+    f = ck.repo.func(modname, "XPathTransformer.element")
+    ap = f.node.args.args[1].arg
+    what = "XPathTransformer.element returns the empty-step marker (None, None, None) exactly when the element has no children"
+    leaves = decision_tree(strip_docstring(f.node.body), sized=(ap,), domain=lambda k: (0, 1, 2) if k.startswith("len(") else (True, False), max_atoms=12)
+    marker = [lf for lf in leaves if lf.outcome == "return" and isinstance(lf.value, ast.Tuple) and len(lf.value.elts) == 3 and all(is_none(x) for x in lf.value.elts)]
+    if not marker:
+        raise Unsupported("XPathTransformer.element: no path returns the literal empty-step marker", f.node)
+    bad = [lf for lf in marker if lf.assign.get(f"len({ap})") != 0]
+    if not bad:
+        ck.holds("R-XP-ELEMENTS", f, f.node, what, evaluations=len(leaves))
+        return
+    on_values = [k for k in bad[0].assign if k.startswith("is(None,")]
+    if on_values:
+        ck.violation("R-XP-ELEMENTS", f, f.node, what, evaluations=len(leaves),
+                     construct=f"element: the marker is returned when {', '.join(on_values)[:80]} (what the children happened to contain), not when there are no children: "
+                     "a step of empty brackets `/[]/` is taken for `//`")
+    else:
+        raise Unsupported(f"XPathTransformer.element: the marker is returned on the path {bad[0].assign}", f.node)
+
+
 def r_xp_compile_each(ck: Checker, rule: str = "R-XP-FIND") -> None:
     """ASTXpath instances are cached per text (__new__), __init__ runs again on every construction: it must compile again,
     otherwise the classes named in the text stay resolved as they were when the text was first seen."""
@@ -772,6 +795,7 @@ def run(ck: Checker) -> None:
     ck.guard("R-XP-FIND", lambda: r_xp_compile_each(ck))
     ck.guard("R-XP-ELEMENTS", lambda: r_xp_elements(ck))
     ck.guard("R-XP-ONCE", lambda: r_xp_once(ck))
+    ck.guard("R-XP-ELEMENTS", lambda: r_empty_step(ck))
     from .c17 import r_reusable
     ck.guard("R-XP-ELEMENTS", lambda: r_reusable(ck))
     ck.require_count("R-XP-SHARED", 3)
